@@ -1318,6 +1318,58 @@ fn decode_cases(s: &mut Session, rng: &mut Rng, n: usize) {
     }
 }
 
+/// `expand_template(template, id)` observed through a one-entry format-2 table (`Err(())` = UriTemplateError)
+fn real_uri(rng: &mut Rng, template: &[u8], id: &PatchId) -> Result<Result<String, ()>, String> {
+    let raw = |delta: i32| RawSpec { flags: 4, feats: vec![], segs: vec![], child_byte: 0, children: vec![], delta, fmt: 0, bias: 0, cps: IntSet::empty(), bf: 0, bad_cps: false };
+    let spec = match id {
+        PatchId::String(b) => F2Spec { compat: gen_compat(rng, 0), default_format: 3, id_strings: Some(b.clone()), template: template.to_vec(), raws: vec![raw(b.len() as i32)], field_flags: 0 },
+        PatchId::Numeric(n) => F2Spec { compat: gen_compat(rng, 0), default_format: 3, id_strings: None, template: template.to_vec(), raws: vec![raw(*n as i32 - 1)], field_flags: 0 },
+    };
+    let t = spec.build();
+    let font = build_font(Some(&t.bytes), None, 3, &[]);
+    catch(|| {
+        let f = FontRef::new(&font).unwrap();
+        let v = intersecting_patches(&f, &SubsetDefinition::all()).unwrap();
+        v[0].uri_string().map_err(|_| ())
+    })
+}
+
+/// different entry ids => different uris whenever the template contains {id} or {id64}
+/// (model independent; includes the different-byte-length pairs the Lean theorem leaves conditional)
+fn uri_injectivity_cases(s: &mut Session, rng: &mut Rng, n: usize) {
+    let pieces: [&[u8]; 14] = [b"{id}", b"{id64}", b"{d1}", b"{d2}", b"{d3}", b"{d4}", b"/", b"0", b"A", b"%3D", b"_", b"-", b"V", b"="];
+    for _ in 0..n {
+        let mut template: Vec<u8> = vec![];
+        let k = 1 + rng.below(5);
+        for _ in 0..k { template.extend(*rng.pick(&pieces)); }
+        let has_sub = template.windows(4).any(|w| w == b"{id}") || template.windows(6).any(|w| w == b"{id64}");
+        if !has_sub { template.extend(if rng.chance(1, 2) { &b"{id}"[..] } else { &b"{id64}"[..] }); }
+        let (a, b) = if rng.chance(1, 2) {
+            let pool = [1u32, 2, 31, 32, 255, 256, 257, 65535, 65536, 0x7FFFFF, 0x7FFFFE, 1000, 1024];
+            let x = if rng.chance(1, 2) { *rng.pick(&pool) } else { 1 + rng.below(0x7FFFFE) as u32 };
+            let mut y = if rng.chance(1, 2) { *rng.pick(&pool) } else { 1 + rng.below(0x7FFFFE) as u32 };
+            if x == y { y = if y > 1 { y - 1 } else { y + 1 }; }
+            (PatchId::Numeric(x), PatchId::Numeric(y))
+        } else {
+            let mk = |rng: &mut Rng| -> Vec<u8> { (0..rng.below(5)).map(|_| *rng.pick(&[0u8, 1, 7, 0x3F, 0x40, 0xFF, 0xFB, 0xF0])).collect() };
+            let x = mk(rng);
+            let mut y = mk(rng);
+            if x == y { y.push(1); }
+            (PatchId::String(x), PatchId::String(y))
+        };
+        let ua = real_uri(rng, &template, &a);
+        let ub = real_uri(rng, &template, &b);
+        if let (Ok(Ok(ua)), Ok(Ok(ub))) = (&ua, &ub) {
+            let same_len = match (&a, &b) { (PatchId::String(x), PatchId::String(y)) => x.len() == y.len(),
+                (PatchId::Numeric(x), PatchId::Numeric(y)) => (32 - x.leading_zeros() + 7) / 8 == (32 - y.leading_zeros() + 7) / 8, _ => false };
+            s.count(if same_len { "uri-inj:same-byte-length" } else { "uri-inj:different-byte-length" });
+            s.oracle("uri-injective-on-ids", ua != ub,
+                || format!("template={} ids {} / {}", hex(&template), show_id(&a), show_id(&b)),
+                || format!("both expand to {}", hex(ua.as_bytes())));
+        } else { s.count("uri-inj:not-expanded"); }
+    }
+}
+
 fn uri_cases(s: &mut Session, rng: &mut Rng, n: usize) {
     // expand_template is crate-private: observe it through a one-entry format-2 table
     for i in 0..n {
@@ -1677,6 +1729,7 @@ fn run(cfg: &Config, s: &mut Session) {
     let mut rng = Rng::new(cfg.seed);
     let scale = if cfg.thorough() { 60 } else { 5 };
     uri_cases(s, &mut rng, 1500 * scale);
+    uri_injectivity_cases(s, &mut rng, 600 * scale);
     decode_cases(s, &mut rng, 2500 * scale);
     for i in 0..(1200 * scale) {
         let rich = i % 4 == 3;
